@@ -11,7 +11,11 @@
 //   eval <hex ctx-list xpath> <k> <hex buf> <hex expr>
 //        context node list = value of the first expression at the root, context node = its k-th member (0-based)
 // reply to eval (single line, space separated):
-//   op=<top op code> G=<generic> GB=<b> GN=<bits> GS=<hex> B=<..> N=<..> S=<..> C=<hex>:<events> L=<viaObj>:<ids>
+//   eval … [order]  optional 6th field 0..5: order in which boolean()/num()/str()/str(events) are asked of the generic result
+//   var <name> r <hex>  binds a result tree fragment (one text node).  Extension functions c11:echo/str/num/bool/first
+//   live in namespace urn:c11-ext (declare a prefix for it on the document element).
+//   ONE execution context and ONE object factory per document session; nothing is reset between evals.
+//   op=<top op code> G=<generic> GB=<b> GN=<bits> GS=<hex> GC=<hex>:<event lengths> B=<..> N=<..> S=<..> C=<hex>:<event lengths> CR=<same via charactersRaw> L=<viaObj>:<ids>
 //   generic: b:<0|1> | n:<bits>:<hex NumberToDOMString> | s:<hex>:<bits toDouble> | l:<ids>:<hex string(first)>:<bits> | u | E
 //   any field is `E` when that call raised an XSLException.
 #include <xalanc/Include/PlatformDefinitions.hpp>
@@ -34,6 +38,8 @@
 #include <xalanc/DOMSupport/XalanDocumentPrefixResolver.hpp>
 #include <xalanc/DOMSupport/DOMServices.hpp>
 #include <xalanc/XPath/XObject.hpp>
+#include <xalanc/XPath/Function.hpp>
+#include <xalanc/XSLT/XResultTreeFrag.hpp>
 #include <xalanc/XPath/XObjectFactoryDefault.hpp>
 #include <xalanc/XPath/XPath.hpp>
 #include <xalanc/XPath/XPathEvaluator.hpp>
@@ -114,20 +120,28 @@ static std::string bits(double d)
     return b;
 }
 
-// collects character events
+// collects character events (text and the length of every event)
 class Collector : public FormatterListener
 {
 public:
     Collector() : FormatterListener(OUTPUT_METHOD_NONE), m_events(0) {}
-    XalanDOMString  m_text;
-    unsigned        m_events;
+    XalanDOMString          m_text;
+    unsigned                m_events;
+    std::vector<unsigned>   m_lens;
+    void add(const XMLCh* const chars, const size_type length) { m_text.append(chars, length); ++m_events; m_lens.push_back(unsigned(length)); }
+    std::string lens() const
+    {
+        std::string r;
+        for (size_t i = 0; i < m_lens.size(); ++i) { if (i) r += "."; r += std::to_string(m_lens[i]); }
+        return r.empty() ? "-" : r;
+    }
     virtual void setDocumentLocator(const Locator* const) {}
     virtual void startDocument() {}
     virtual void endDocument() {}
     virtual void startElement(const XMLCh* const, AttributeListType&) {}
     virtual void endElement(const XMLCh* const) {}
-    virtual void characters(const XMLCh* const chars, const size_type length) { m_text.append(chars, length); ++m_events; }
-    virtual void charactersRaw(const XMLCh* const chars, const size_type length) { m_text.append(chars, length); ++m_events; }
+    virtual void characters(const XMLCh* const chars, const size_type length) { add(chars, length); }
+    virtual void charactersRaw(const XMLCh* const chars, const size_type length) { add(chars, length); }
     virtual void entityReference(const XMLCh* const) {}
     virtual void ignorableWhitespace(const XMLCh* const, const size_type) {}
     virtual void processingInstruction(const XMLCh* const, const XMLCh* const) {}
@@ -136,7 +150,39 @@ public:
     virtual void cdata(const XMLCh* const, const size_type) {}
 };
 
-struct Binding { char kind; bool b; double n; XalanDOMString s; std::vector<XalanNode*> ns; };
+// extension functions c11:echo(x) (returns its argument object), c11:str(x), c11:num(x), c11:bool(x), c11:first(ns)
+class ExtFn : public Function
+{
+public:
+    explicit ExtFn(char kind) : m_kind(kind) {}
+    virtual XObjectPtr execute(XPathExecutionContext& ec, XalanNode* context, const XObjectArgVectorType& args, const Locator* locator) const
+    {
+        if (args.size() != 1) generalError(ec, context, locator);
+        switch (m_kind)
+        {
+        case 'e': return args[0];
+        case 's': return ec.getXObjectFactory().createString(args[0]->str(ec));
+        case 'n': return ec.getXObjectFactory().createNumber(args[0]->num(ec));
+        case 'b': return ec.getXObjectFactory().createBoolean(args[0]->boolean(ec));
+        default:
+            {
+                XPathExecutionContext::BorrowReturnMutableNodeRefList l(ec);
+                const NodeRefListBase& a = args[0]->nodeset();
+                if (a.getLength() > 0) l->addNode(a.item(0));
+                l->setDocumentOrder();
+                return ec.getXObjectFactory().createNodeSet(l);
+            }
+        }
+    }
+    using Function::execute;
+    virtual ExtFn* clone(MemoryManager& theManager) const { return XalanCopyConstruct(theManager, *this); }
+protected:
+    const XalanDOMString& getError(XalanDOMString& theResult) const { theResult.assign("c11 extension functions take one argument"); return theResult; }
+private:
+    char m_kind;
+};
+
+struct Binding { char kind; bool b; double n; XalanDOMString s; std::vector<XalanNode*> ns; XObjectPtr held; XResultTreeFrag* rtf; Binding() : kind(0), b(false), n(0), rtf(0) {} };
 
 class Ctx : public XPathExecutionContextDefault
 {
@@ -156,6 +202,7 @@ public:
         case 'b': return m_factory.createBoolean(v.b);
         case 'n': return m_factory.createNumber(v.n);
         case 's': return m_factory.createString(v.s);
+        case 'r': return XObjectPtr(v.rtf);
         default:
             {
                 BorrowReturnMutableNodeRefList l(*this);
@@ -173,13 +220,14 @@ struct World
     XalanSourceTreeParserLiaison    liaison;
     XPathEnvSupportDefault          env;
     XObjectFactoryDefault           factory;
+    XObjectFactoryDefault           rtfStrings;     // owns the strings result-tree-fragment variables are built over
     XPathConstructionContextDefault cctx;
     Ctx                             ec;
     XalanDocument*                  doc;
     std::vector<XalanNode*>         all;
     std::map<const XalanNode*, size_t> index;
     std::string                     xml;
-    World() : dom(), liaison(dom), env(), factory(), cctx(), ec(env, dom, factory), doc(0) { dom.setParserLiaison(&liaison); }
+    World() : dom(), liaison(dom), env(), factory(), rtfStrings(), cctx(), ec(env, dom, factory), doc(0) { dom.setParserLiaison(&liaison); }
 };
 
 static std::string idsOf(World& w, const NodeRefListBase& l)
@@ -234,13 +282,22 @@ static std::string showGeneric(World& w, const XObjectPtr& g)
             const NodeRefListBase& l = g->nodeset();
             XalanDOMString s;
             if (l.getLength() > 0) DOMServices::getNodeData(*l.item(0), w.ec, s);
-            return "l:" + idsOf(w, l) + ":" + hexOf(s) + ":" + bits(DoubleSupport::toDouble(s, XalanMemMgrs::getDefaultXercesMemMgr()));
+            Collector c;
+            if (l.getLength() > 0) DOMServices::getNodeData(*l.item(0), w.ec, c, &FormatterListener::characters);
+            return "l:" + idsOf(w, l) + ":" + hexOf(s) + ":" + bits(DoubleSupport::toDouble(s, XalanMemMgrs::getDefaultXercesMemMgr())) + ":" + c.lens();
+        }
+    case XObject::eTypeResultTreeFrag:
+        {
+            // string-value computed from the fragment itself (not through the object's conversions)
+            XalanDOMString s;
+            DOMServices::getNodeData(g->rtree(), w.ec, s);
+            return "r:" + hexOf(s) + ":" + bits(DoubleSupport::toDouble(s, XalanMemMgrs::getDefaultXercesMemMgr()));
         }
     default: return "u";
     }
 }
 
-static void doEval(World& w, const std::string& listExpr, size_t k, const std::string& bufUtf8, const std::string& exprUtf8)
+static void doEval(World& w, const std::string& listExpr, size_t k, const std::string& bufUtf8, const std::string& exprUtf8, int ord)
 {
     std::string out;
     XalanDocumentPrefixResolver res(w.doc);
@@ -270,13 +327,31 @@ static void doEval(World& w, const std::string& listExpr, size_t k, const std::s
             out += " G=" + showGeneric(w, g);
             if (!g.null() && g->getType() != XObject::eTypeUnknown && g->getType() != XObject::eTypeNull)
             {
-                out += std::string(" GB=") + (g->boolean(w.ec) ? "1" : "0");
-                out += " GN=" + bits(g->num(w.ec));
-                out += " GS=" + hexOf(g->str(w.ec));
+                // the standard conversions of the generic result, asked in the order the request chooses
+                // (a recycled object must answer like a fresh one whatever was asked of its previous life)
+                std::string gb, gn, gs, gc;
+                static const char* orders[] = { "bnsc", "nsbc", "snbc", "cnsb", "scnb", "ncsb" };
+                const char* o = orders[ord % 6];
+                for (int i = 0; i < 4; ++i)
+                {
+                    switch (o[i])
+                    {
+                    case 'b': gb = g->boolean(w.ec) ? "1" : "0"; break;
+                    case 'n': gn = bits(g->num(w.ec)); break;
+                    case 's': gs = hexOf(g->str(w.ec)); break;
+                    default:
+                        {
+                            Collector c;
+                            g->str(w.ec, c, &FormatterListener::characters);
+                            gc = hexOf(c.m_text) + ":" + c.lens();
+                        }
+                    }
+                }
+                out += " GB=" + gb + " GN=" + gn + " GS=" + gs + " GC=" + gc;
             }
-            else out += " GB=E GN=E GS=E";
+            else out += " GB=E GN=E GS=E GC=E";
         }
-        catch (const XSLException&) { out += " G=E GB=E GN=E GS=E"; }
+        catch (const XSLException&) { out += " G=E GB=E GN=E GS=E GC=E"; }
         // bool
         try { bool b = false; xp.execute(context, res, cl, w.ec, b); out += std::string(" B=") + (b ? "1" : "0"); }
         catch (const XSLException&) { out += " B=E"; }
@@ -291,9 +366,17 @@ static void doEval(World& w, const std::string& listExpr, size_t k, const std::s
         {
             Collector c;
             xp.execute(context, res, cl, w.ec, c, &FormatterListener::characters);
-            out += " C=" + hexOf(c.m_text) + ":" + std::to_string(c.m_events);
+            out += " C=" + hexOf(c.m_text) + ":" + c.lens();
         }
         catch (const XSLException&) { out += " C=E"; }
+        // the same through the other FormatterListener member (charactersRaw): same events expected
+        try
+        {
+            Collector c;
+            xp.execute(context, res, cl, w.ec, c, &FormatterListener::charactersRaw);
+            out += " CR=" + hexOf(c.m_text) + ":" + c.lens();
+        }
+        catch (const XSLException&) { out += " CR=E"; }
         // node list
         try
         {
@@ -304,7 +387,8 @@ static void doEval(World& w, const std::string& listExpr, size_t k, const std::s
         }
         catch (const XSLException&) { out += " L=E"; }
     }
-    w.factory.reset();
+    // no factory reset here: one execution context and one object factory live for the whole document session,
+    // so released XObjects are recycled by later evaluations
     std::cout << out << std::endl;
 }
 
@@ -315,6 +399,14 @@ int main()
     int rc = 0;
     {
         XalanSourceTreeInit sourceTreeInit;
+        {
+            const XalanDOMString ns("urn:c11-ext");
+            XPathEnvSupportDefault::installExternalFunctionGlobal(ns, XalanDOMString("echo"), ExtFn('e'));
+            XPathEnvSupportDefault::installExternalFunctionGlobal(ns, XalanDOMString("str"), ExtFn('s'));
+            XPathEnvSupportDefault::installExternalFunctionGlobal(ns, XalanDOMString("num"), ExtFn('n'));
+            XPathEnvSupportDefault::installExternalFunctionGlobal(ns, XalanDOMString("bool"), ExtFn('b'));
+            XPathEnvSupportDefault::installExternalFunctionGlobal(ns, XalanDOMString("first"), ExtFn('f'));
+        }
         World* w = 0;
         std::string line;
         while (std::getline(std::cin, line))
@@ -365,17 +457,27 @@ int main()
                 }
                 else if (t[0] == "var" && w && t.size() == 4)
                 {
-                    Binding b; b.kind = t[2][0]; b.b = false; b.n = 0;
+                    Binding b; b.kind = t[2][0];
                     if (t[2] == "b") b.b = t[3] == "1";
                     else if (t[2] == "n") b.n = DoubleSupport::toDouble(domOfUtf8(t[3]), XalanMemMgrs::getDefaultXercesMemMgr());
                     else if (t[2] == "s") b.s = domOfUtf8(unhex(t[3]));
+                    else if (t[2] == "r")
+                    {
+                        // a result tree fragment holding one text node: built over the fragment proxy of a string object
+                        b.s = domOfUtf8(unhex(t[3]));
+                        b.held = w->rtfStrings.createString(b.s);
+                        b.rtf = new XResultTreeFrag(const_cast<XalanDocumentFragment&>(b.held->rtree()), XalanMemMgrs::getDefaultXercesMemMgr());
+                        // XResultTreeFrag::dereferenced() deletes the fragment and itself when the last reference goes
+                        // (no StylesheetExecutionContext here): keep one reference for the life of the process
+                        new XObjectPtr(b.rtf);
+                    }
                     else { b.kind = 'l'; nodesetOf(*w, unhex(t[3]), b.ns); w->factory.reset(); }
                     w->ec.m_vars[t[1]] = b;
                     std::cout << "ok" << std::endl;
                 }
-                else if (t[0] == "eval" && w && t.size() == 5)
+                else if (t[0] == "eval" && w && (t.size() == 5 || t.size() == 6))
                 {
-                    doEval(*w, unhex(t[1]), size_t(std::stoul(t[2])), unhex(t[3]), unhex(t[4]));
+                    doEval(*w, unhex(t[1]), size_t(std::stoul(t[2])), unhex(t[3]), unhex(t[4]), t.size() == 6 ? std::stoi(t[5]) : 0);
                 }
                 else std::cout << "bad" << std::endl;
             }
